@@ -355,6 +355,29 @@ def unlock (s : Eng) (owner : Nat) (ls : List LockType) : Eng × Res :=
     | some m => (s, .panic m)
     | none => ({ s with locks := s.locks.unlockIdx i ls }, .ok)
 
+/-- `UnlockSHM(owner)` (the shm handle is flushed / closed): a WAL commit if the owner holds
+    WRITE exclusively, then every guard on the shm file is released -/
+def unlockSHM (s : Eng) (owner : Nat) : Eng × Res :=
+  match s.locks.find owner with
+  | none => (s, .ok)
+  | some i =>
+    let (s, panicMsg) :=
+      if s.locks.guardState .write i == .exclusive then
+        match commitWALBody s with
+        | .ok s' => (s', none)
+        | .error (s', .panic m) => (s', some m)
+        | .error (s', _) => ({ s' with exit := if s'.exit = 0 then 99 else s'.exit }, none)
+      else (s, none)
+    match panicMsg with
+    | some m => (s, .panic m)
+    | none => ({ s with locks := s.locks.unlockIdx i [.write, .ckpt, .recover, .read0, .read1, .read2, .read3, .read4, .dms] }, .ok)
+
+/-- `UnlockDatabase(owner)` (the database handle is flushed / closed) -/
+def unlockDatabase (s : Eng) (owner : Nat) : Eng × Res :=
+  match s.locks.find owner with
+  | none => (s, .ok)
+  | some i => ({ s with locks := s.locks.unlockIdx i [.pending, .shared, .reserved] }, .ok)
+
 /-- `Drop` (behind the mount's primary-only gate) -/
 def drop (s : Eng) : M Eng := do
   ensure s (¬ (!s.primary)) .readonly
